@@ -342,6 +342,23 @@ def D36():
     op = a.setup_optim_problem(pr, tg)
     return 'no error: %d variables' % len(op.c)
 
+@witness
+def D37():
+    import pandas as pd
+    tg = A.Timegrid(dt.date(2021, 1, 1), dt.date(2021, 1, 2), freq='h', main_time_unit='h', timezone='CET')
+    d = {'start': [pd.Timestamp('2021-01-01 10:00', tz='CET')], 'end': [pd.Timestamp('2021-01-01 12:00', tz='CET')], 'capa': [1.], 'price': [-5.]}
+    m1 = A.OrderBook('ob', N1, orders=d).setup_optim_problem(None, tg).mapping
+    m2 = A.OrderBook('ob', N1, orders=pd.DataFrame(d)).setup_optim_problem(None, tg).mapping
+    return 'order 10:00-12:00 CET: steps %s when given as dict, %s when given as DataFrame' % (m1.time_step.tolist(), m2.time_step.tolist())
+
+@witness
+def D38():
+    n1, n2 = A.Node('a'), A.Node('b')
+    tg = A.Timegrid(dt.date(2021, 1, 1), dt.date(2021, 1, 3), freq='h', main_time_unit='h')
+    c0 = A.Transport(name='t', nodes=[n1, n2], min_cap=0, max_cap=1, costs_const=1.).setup_optim_problem({}, tg).c
+    c1 = A.Transport(name='t', nodes=[n1, n2], min_cap=0, max_cap=1, costs_const=1., periodicity='d').setup_optim_problem({}, tg).c
+    return 'transport with costs 1 over 48 h: total cost %.0f, as periodic (d) asset %.0f' % (c0.sum(), c1.sum())
+
 if __name__ == '__main__':
     which = sys.argv[1:] or list(W)
     for k in which:
